@@ -22,8 +22,8 @@ from ..core import MachineryError, Report
 
 CONFIGS = {
     "replay": ["Retarget_tiny.cfg"],
-    "quick": ["Retarget_q1.cfg", "Retarget_q2.cfg", "Retarget_q3.cfg", "Retarget_q4.cfg"],
-    "thorough": ["Retarget_t1.cfg", "Retarget_t2.cfg", "Retarget_t3.cfg", "Retarget_t4.cfg", "Retarget_t5.cfg", "Retarget_t6.cfg"],
+    "quick": ["Retarget_q1.cfg", "Retarget_q2.cfg", "Retarget_q3.cfg", "Retarget_q4.cfg", "Retarget_q5.cfg"],
+    "thorough": ["Retarget_t1.cfg", "Retarget_t2.cfg", "Retarget_t3.cfg", "Retarget_t4.cfg", "Retarget_t5.cfg", "Retarget_t6.cfg", "Retarget_q5.cfg"],
 }
 SAMPLE = {"quick": 3000, "thorough": 40000}
 
